@@ -13,7 +13,7 @@ import traceback
 import z3
 
 from .vals import *   # noqa
-from .interp import (Prod, OutOfReach, PyRaise, Infeasible, PathEnd, FuncRef, ClassRef, Obj, NamedTupleClass, Closure,
+from .interp import (DDict, Prod, OutOfReach, PyRaise, Infeasible, PathEnd, FuncRef, ClassRef, Obj, NamedTupleClass, Closure,
                      HostFn, Frame, Ctx, Interp, ExcInst, TDelta, plain, int_term, _Star, Builtin)
 from .world import World, LoopSpec, merge_eval, arg_key
 from .ops import SymMapView
@@ -57,6 +57,11 @@ def fresh_of_dom(it, dom, name):
     if dom.parts is not None:
         items = [fresh_of_dom(it, p, '%s_%d' % (name, i)) for i, p in enumerate(dom.parts)]
         return tuple(items) if dom.is_tuple else items
+    if 'ddict' in dom.kinds:
+        d = DDict()
+        for k2, dv in dom.attrs['entries'].items():
+            d[k2] = fresh_of_dom(it, dv, '%s[%s]' % (name, k2))
+        return d
     if 'prod' in dom.kinds:
         names = [n for n, _ in dom.attrs['parts']]
         vals = [fresh_of_dom(it, d, '%s_%d' % (name, i)) for i, (_, d) in enumerate(dom.attrs['parts'])]
@@ -106,7 +111,8 @@ def dom_membership(it, dom, v):
         return True
     if dom.has_const:
         return True
-    if dom.parts is not None or 'pyobj' in dom.kinds or 'hostfn' in dom.kinds or 'symmap' in dom.kinds or 'prod' in dom.kinds:
+    if dom.parts is not None or 'pyobj' in dom.kinds or 'hostfn' in dom.kinds or 'symmap' in dom.kinds or 'prod' in dom.kinds \
+            or 'ddict' in dom.kinds:
         return True
     if isinstance(v, Sym):
         if v.kinds <= dom.kinds:
@@ -298,6 +304,33 @@ class Contract(object):
         raise OutOfReach('contract %s has neither spec nor post' % self.name)
 
 
+def heap_copy(v, memo=None):
+    """ structural copy of interpreter heap values (Obj, dict, list); symbolic and immutable values are shared """
+    memo = {} if memo is None else memo
+    if id(v) in memo:
+        return memo[id(v)]
+    if isinstance(v, Obj):
+        o = Obj(v.cls, {})
+        memo[id(v)] = o
+        for k, x in v.attrs.items():
+            o.attrs[k] = heap_copy(x, memo)
+        return o
+    if isinstance(v, dict):
+        d = type(v)()
+        memo[id(v)] = d
+        for k, x in v.items():
+            d[k] = heap_copy(x, memo)
+        return d
+    if isinstance(v, list):
+        l = []
+        memo[id(v)] = l
+        l.extend(heap_copy(x, memo) for x in v)
+        return l
+    if isinstance(v, tuple):
+        return tuple(heap_copy(x, memo) for x in v)
+    return v
+
+
 def _flatten_vals(vals):
     for v in vals:
         if isinstance(v, (list, tuple)):
@@ -439,6 +472,8 @@ def value_from_model(model, v):
         return {'__prod__': list(v.names), 'vals': [value_from_model(model, x) for x in v.init_vals]}
     if isinstance(v, SymMapView):
         return {'__symmap__': v.name}
+    if isinstance(v, dict):
+        return {'__dict__': {str(k): value_from_model(model, x) for k, x in v.items()}}
     return v
 
 
@@ -504,6 +539,8 @@ def verify_contract(world, c, timeout_ms=10000, only_case=None, budget_s=None):
                     else:
                         raise OutOfReach('contract %s declares no domain for parameter %s' % (c.name, n))
                 ctx.inputs = list(zip(names, vals))
+                ctx.inputs_vals = vals
+                old = heap_copy(vals[0]) if ('post' in c.fns and 'old' in [a.arg for a in c.fns['post'].node.args.args]) else None
                 if 'pre' in c.fns:
                     ctx.phase = 'pre'
                     # merged into one assumption (paths of the precondition are not multiplied with those of the body);
@@ -565,7 +602,10 @@ def verify_contract(world, c, timeout_ms=10000, only_case=None, budget_s=None):
                 if 'post' in c.fns:
                     oo = outcome_obj(out)
                     try:
-                        ok = it.truth(it.call(c.fns['post'], vals + [oo]))
+                        pargs = vals + [oo]
+                        if old is not None:
+                            pargs = vals + [old, oo]
+                        ok = it.truth(it.call(c.fns['post'], pargs))
                     except PyRaise as pr:
                         raise OutOfReach('the postcondition itself raised %s on this path' % pr.cls)
                     ctx.oblige('post', 'post', z3.BoolVal(bool(ok)), note=describe_outcome(out))
@@ -669,6 +709,8 @@ def load_contracts(world, contract_dir, files=None):
             c = Contract(world, decl, m)
             c.native_ns = ns2
             c.file = fn
-            world.contracts[c.target] = c
+            prev = world.contracts.get(c.target)
+            if prev is None or decl.get('for_callers') or not prev.decl.get('for_callers'):
+                world.contracts[c.target] = c          # what callers of the target see
             out.append(c)
     return out
